@@ -92,8 +92,11 @@ def main():
         obligations = C.obligations(cone)
         broken = []           # textual reasons why a proof obligation / the tie does not check
         if not gen_ok:
+            in_cone = set(os.path.basename(c) for c in cone)
             for f, st in gen_status.items():
-                if 'error' in st:
+                # a source construct outside the translator's subset breaks the obligations of the
+                # properties whose theorems rest on that generated file -- not the others
+                if 'error' in st and (f in in_cone or not in_cone):
                     broken.append('translator: %s: %s' % (f, st['error']))
             if not gen_status:
                 broken.append('translator failed: ' + gen_out[-500:])
@@ -109,6 +112,19 @@ def main():
         axioms, closed = [], 0
         if ok:
             pa_ok, axioms, closed, pa_out = C.print_assumptions(prop_v)
+            if not pa_ok:
+                broken.append('Print Assumptions run of %s failed: %s' % (prop_v, pa_out[-400:]))
+            allowed = {'ClassicalDedekindReals.sig_forall_dec', 'ClassicalDedekindReals.sig_not_dec',
+                       'FunctionalExtensionality.functional_extensionality_dep', 'Classical_Prop.classic'}
+            extra = [a for a in axioms if a not in allowed]
+            if extra:
+                broken.append('unexpected axioms under %s: %s' % (prop_v, ', '.join(extra)))
+        chk = None
+        if ok and args.tier == 'thorough':
+            c_ok, c_axioms, c_tail, c_wall, c_bad = C.coqchk(prop_v)
+            chk = {'ok': c_ok, 'axioms': c_axioms, 'wall_s': c_wall, 'kernel_check_switches': c_bad}
+            if not c_ok:
+                broken.append('coqchk rejected %s: %s' % (prop_v, c_tail[-400:]))
         failed_files = set(failed)
         discharged = [o for o in obligations if o.split(':')[0] not in failed_files] if ok else \
             [o for o in obligations if o.split(':')[0] not in failed_files and
@@ -194,6 +210,7 @@ def main():
             'distinct_nontrivial': int(res.get('distinct_nontrivial', 0)),
             'rule': res.get('rule', ''), 'samples': res.get('samples', [])[:3],
             'input_distribution': res.get('distribution', {}),
+            'coqchk': chk if chk is not None else 'thorough tier only',
             'known_findings_reported': sorted(reported_known),
             'known_findings_witnesses': witness_log,
             'exhaustive': bool(res.get('exhaustive', False)),
